@@ -15,6 +15,7 @@ import json
 import os
 import random
 import shutil
+import sys
 import threading
 import time
 from pathlib import Path
@@ -311,6 +312,7 @@ class RendezvousThreading:
         self.cv = threading.Condition()
         self.waiting = 0
         self.met = 0
+        self.fin_log = []
 
     def __getattr__(self, name):
         return getattr(threading, name)
@@ -338,6 +340,14 @@ class RendezvousThreading:
                 return self
 
             def __exit__(self, *exc):
+                # still inside the critical section: when it is the one of restore's _download_chunk that removes a digest
+                # from a file's outstanding set, record (file, digest, decided-finished) - the order of these records is
+                # the order of the critical sections
+                f = sys._getframe(1)
+                if f.f_code.co_name == '_download_chunk' and exc[0] is None:
+                    loc = f.f_locals
+                    if 'file_path' in loc and 'digest' in loc:
+                        outer.fin_log.append((loc['file_path'], loc['digest'].hex(), bool(loc.get('finished'))))
                 self.release()
         return L()
 
@@ -487,7 +497,8 @@ def run_case(case, wd: Path, chooser_factory):
                 return
             gate.fail_from = None
             obs['pipe_trace'] = (plog.cap, list(plog.events))
-            manifest = canon_manifest(t.result())
+            t_snapshot_result = t.result()
+            manifest = canon_manifest(t_snapshot_result)
             if manifest != seq_manifest:
                 obs['problems'].append(('snapshot manifest differs from the sequential run', 'manifest'))
             obs['chunks'] = len(manifest['table'])
@@ -535,6 +546,12 @@ def run_case(case, wd: Path, chooser_factory):
                 if tpath.stat().st_mtime_ns != os.stat(path).st_mtime_ns:
                     obs['problems'].append(('modification time not restored under this schedule', 'mtime'))
                     break
+            plan = {}
+            for fd in t_snapshot_result.data['files']:
+                ds = sorted({t_snapshot_result.chunks[r['index']].hex() for r in fd['chunks']})
+                if ds:
+                    plan[fd['path']] = ds
+            obs['fin_trace'] = (plan, list(proxy.fin_log))
             want = sorted(str(Path(out, *Path(p).parts[1:]).resolve()) for p in tree)
             if sorted(finalised) != want:
                 obs['problems'].append((f'files finalised {len(finalised)} time(s) for {len(want)} file(s) (each must be finalised exactly once)', 'finalise'))
@@ -599,6 +616,8 @@ def check(case, ctx, rep: Report, chooser_factory, tag):
     rep.count('flavour=' + case['flavour'])
     rep.count('fail=' + ('down' if case.get('down_from') is not None else 'none' if case['fail_at'] is None else case['fail_phase']))
     rep.count('rendezvous_met', obs.get('rendezvous_met', 0))
+    if obs.get('fin_trace'):
+        rep.extra.setdefault('_fin_traces', []).append((obs['fin_trace'][0], obs['fin_trace'][1], case))
     if obs.get('pipe_trace'):
         rep.extra.setdefault('_pipe_traces', []).append((obs['pipe_trace'][0], obs['pipe_trace'][1], case))
     for tr in obs.get('slot_traces', []):
@@ -772,6 +791,51 @@ def validate_pipe_traces(rep: Report):
     rep.count('pipeline_events_validated', sum(len(evs) for _, evs, _ in traces))
 
 
+def validate_fin_traces(rep: Report):
+    """the (file, digest, finished) records taken inside restore's finalisation critical sections, in their real order, must be
+    a run of Model/Sched.run_events over the plan computed from the snapshot: the model finalises the same files in the same
+    order and nothing stays pending"""
+    traces = rep.extra.pop('_fin_traces', [])
+    if not traces:
+        return
+    per = 80
+    jobs, expect = [], []
+    for i in range(0, len(traces), per):
+        L = ['From Coq Require Import List Arith.', 'From Replicat Require Import Model.Sched.', 'Import ListNotations.',
+             'Definition cases : list (pending * list (nat * nat)) := [']
+        items = []
+        for plan, evs, _ in traces[i:i + per]:
+            fid = {f: k for k, f in enumerate(sorted(plan))}
+            did = {d: k for k, d in enumerate(sorted({d for ds in plan.values() for d in ds} | {d for _, d, _ in evs}))}
+            for f, _, _ in evs:
+                fid.setdefault(f, len(fid))
+            p = '; '.join('(%d, [%s])' % (fid[f], '; '.join(str(did[d]) for d in ds)) for f, ds in sorted(plan.items()))
+            e = '; '.join('(%d, %d)' % (fid[f], did[d]) for f, d, _ in evs)
+            items.append('  ([%s], [%s])' % (p, e))
+            expect.append([fid[f] for f, _, fin in evs if fin])
+        L.append(';\n'.join(items))
+        L.append('].')
+        L.append('Eval vm_compute in map (fun c => let r := run_events (snd c) (fst c) in (fst r, length (snd r))) cases.')
+        jobs.append((f'c09_fin_{i // per}', '\n'.join(L) + '\n'))
+    res = core.coq_eval_files(jobs)
+    out = []
+    for name, _ in jobs:
+        rc, text = res[name]
+        if rc != 0:
+            rep.disagreements.append({'what': 'the finalisation model could not be evaluated: ' + text[-800:], 'replay': None})
+            return
+        out += core.parse_coq_term(core.parse_coq_values(text)[-1])
+    for (plan, evs, case), (fins, left), exp in zip(traces, out, expect):
+        rep.traces_validated += 1
+        if plan and not evs:
+            rep.disagreements.append({'what': 'no finalisation record could be taken from restore (the critical section of _download_chunk '
+                                              'was not recognised)', 'replay': case})
+        elif list(fins) != exp or left:
+            rep.disagreements.append({'what': f'finalisation order of the implementation {exp} differs from the model {list(fins)} '
+                                              f'({left} file(s) left pending in the model)', 'replay': case})
+    rep.count('finalisation_events_validated', sum(len(evs) for _, evs, _ in traces))
+
+
 def _run(ctx, n_random, n_forced, n_perm, rep):
     # forced finalisation race
     for k in range(n_forced):
@@ -799,6 +863,7 @@ def _run(ctx, n_random, n_forced, n_perm, rep):
     queue_race_probe(ctx, rep)
     validate_slot_traces(rep)
     validate_pipe_traces(rep)
+    validate_fin_traces(rep)
 
 
 def run(ctx) -> Report:
